@@ -58,7 +58,7 @@ PROP_UNITS = {
                           'operands and are not instantiated',
                           '`%` by zero / Euclidean forms by zero: the panic is the precondition of the proved contracts '
                           '(it happens inside the stubbed IBig %, rem_euclid, div_rem_euclid or at the explicit guard)']},
-    'C05': {'verus': ['ratio_cmp', 'ratio_eq'],
+    'C05': {'verus': ['ratio_cmp', 'ratio_eq', 'ratio_from_float', 'ratio_reduce'],
             'undecided': ['rational == / cmp / abs_eq / abs_cmp: repr_eq and repr_cmp (both ABS instances) are proved to '
                           'return the equality / order of the cross products a*d, c*b for ANY positive denominators '
                           '(so also for non-reduced Relaxed values; cmp returns Equal exactly when == holds); the one-line '
